@@ -43,7 +43,7 @@ def main():
         text = open(demo).read()
         # demos written by sub-agents may hard-code their own worktree path
         for p in ("C01", "C03", "C04", "C05", "C07", "C08", "C18", "C19", "C20"):
-            text = text.replace("/tmp/wt/" + p, wt)
+            text = text.replace("/tmp/wt/" + p, wt).replace("/tmp/wt2/" + p, wt).replace("/tmp/wt3/" + p, wt)
         demo2 = os.path.join(base, "demo.py")
         open(demo2, "w").write(text)
         r = sh(["/venv/bin/python", demo2], env=env, cwd=wt, timeout=600)
